@@ -269,6 +269,16 @@ class ModelWorld:
     def fresh_folder(self):
         return '/vroot/new'
 
+    second = 0  # the wall-clock second (only the backup dumps carry it)
+
+    def first_backup(self, same_second):
+        pass
+
+    def next_backup(self, same_second):
+        """a further backup follows: in the same wall-clock second as the previous one, or later"""
+        if not same_second:
+            self.second += 1
+
     def backup_dest(self):
         self.fs.dirs.add('/vbk')
         return '/vbk/dest'
@@ -495,6 +505,12 @@ class ModelWorld:
 
     def install_fault(self, fault_at):
         self.fs.fault_at = fault_at
+
+    def install_perm_fault(self, at):
+        """the at-th opening of a file for reading fails with PermissionError (EACCES); -1 switches it off"""
+        self.fs.perm_at = at
+        if at < 0:
+            self.fs.ropens = 10**9
 
     def remove_locks(self):
         for p in [p for p in self.fs.files if p.endswith('.lock')]:
@@ -775,6 +791,21 @@ class RealWorld(RealImage):
     def fresh_folder(self):
         return os.path.join(self.base, 'new')
 
+    def first_backup(self, same_second):
+        """when the next backup is to fall into the same second: start right after a second boundary"""
+        import time
+
+        if same_second:
+            now = time.time()
+            time.sleep(1.0 - (now - int(now)) + 0.02)
+
+    def next_backup(self, same_second):
+        import time
+
+        if not same_second:
+            now = time.time()
+            time.sleep(1.0 - (now - int(now)) + 0.05)
+
     def backup_dest(self):
         return os.path.join(self.base, 'dest')
 
@@ -944,6 +975,10 @@ class RealWorld(RealImage):
         tos = _TickOS(self)
 
         def topen(path, mode='r', *a, **kw):
+            if mode == 'rb' and getattr(w, '_perm_at', -1) > 0 and os.path.isfile(path):
+                w._ropens += 1
+                if w._ropens == w._perm_at:
+                    raise PermissionError(13, 'Permission denied', str(path))
             f = io.open(path, mode, *a, **kw)
             if 'b' in mode and ('w' in mode or 'a' in mode or 'x' in mode or '+' in mode):
                 return _TickFile(w, f)
@@ -1064,6 +1099,14 @@ class RealWorld(RealImage):
         self.fault_at = fault_at
         if fault_at < 0:
             self.step = 10**9
+
+    def install_perm_fault(self, at):
+        if at > 0:
+            self.c.close()
+            self._instrument()
+            self.c = self.new_handle()
+            self._ropens = 0
+        self._perm_at = at
 
     def remove_locks(self):
         for f in os.listdir(os.path.join(self.folder, 'packs')):
